@@ -19,7 +19,9 @@ Fixpoint wf_reach (t : tree) : bool :=
   | Mat _ t' => wf_reach t'
   | Xfer d t' => negb (engine_eqb d (engine_of t')) && wf_reach t'
   | SelM _ skip t' =>
-      (match ekind_of (engine_of t') with KSql => true | KIter => false end) && wf_reach t' && wf_reach skip
+      (* the engine of a marker's target is not constrained by C14: joining an SQL join-identity relation
+         with an iteration-engine relation returns the latter wrapped in a (transparent) SELECT marker *)
+      wf_reach t' && wf_reach skip
   end.
 
 (* ---- C17: the chain of operation nodes between a SELECT marker and its skip target ---- *)
